@@ -59,6 +59,11 @@ def snap(x):
     f = Fraction(x)
     if f.denominator == 1:
         return f
+    # a double whose shortest round-tripping decimal is short (<= 12 significant digits) is read as that decimal (1e-08 -> 10^-8)
+    r = repr(x)
+    mant = r.lower().split('e')[0].replace('-', '').replace('.', '').lstrip('0').rstrip('0')
+    if len(mant) <= 12:
+        return Fraction(r)
     g = f.limit_denominator(_SNAP_DEN)
     if g != 0 and abs(g - f) <= _SNAP_REL * abs(f):
         return g
@@ -797,6 +802,16 @@ class SB:
 
     def __invert__(s):
         return SB(z3.Not(s.t))
+
+    def __int__(s):
+        return int(bool(s))
+
+    def __index__(s):
+        return int(bool(s))
+
+    def __mul__(s, o):
+        return int(bool(s)) * o
+    __rmul__ = __mul__
 
     def __repr__(s):
         return 'SB(%s)' % str(s.t)[:60]
